@@ -76,6 +76,10 @@ func (e *Exec) queryTextGoal(o *Obligation, goal string, withModel bool) string 
 		if g := e.assumeGuard[i]; g != "" && anc != nil && strings.HasPrefix(g, "pc!") && !anc[g] {
 			continue
 		}
+		if i < len(e.assumeProps) && len(e.assumeProps[i]) > 0 && e.runProp != "" && !has(e.assumeProps[i], e.runProp) {
+			// belongs to another property's run (rests on a precondition that is checked only there)
+			continue
+		}
 		b.WriteString(e.assumptions[i])
 		b.WriteByte('\n')
 	}
